@@ -20,6 +20,7 @@ import Driver.Inline
 import Driver.HtmlDecode
 import Driver.Html
 import Driver.BlockH
+import Driver.InlineH
 import Driver.Pipeline
 
 def dispatch (line : String) : String :=
@@ -45,6 +46,7 @@ def dispatch (line : String) : String :=
   | "htmldecode" :: args => Driver.HtmlDecode.handle args
   | "html" :: args => Driver.Html.handle args
   | "blockh" :: args => Driver.BlockH.handle args
+  | "inlineh" :: args => Driver.InlineH.handle args
   | "pipeline" :: args => Driver.Pipeline.handle args
   | _ => "bad-stream"
 
